@@ -19,6 +19,14 @@ GLOBAL_TRUSTED = [
 ]
 
 
+def jsonable(x, depth=0):
+    if depth > 12: return str(x)
+    if isinstance(x, dict): return {str(k): jsonable(v, depth + 1) for k, v in x.items()}
+    if isinstance(x, (list, tuple, set, frozenset)): return [jsonable(v, depth + 1) for v in (sorted(x, key=repr) if isinstance(x, (set, frozenset)) else x)]
+    if isinstance(x, (str, int, float, bool)) or x is None: return x
+    return str(x)
+
+
 def bounded_module(prop):
     try:
         return importlib.import_module('bounded.' + prop)
@@ -129,7 +137,7 @@ def finish(prop, tier, seed, results, bounded, findings, wall, write=True):
     for i, v in enumerate(violations):
         path = _replay_path(prop, i)
         v = dict(v, property=prop, tier=tier, seed=seed, cmd=f'./check {prop} --replay {os.path.relpath(path, HERE)}')
-        json.dump(v, open(path, 'w'), indent=1, default=str)
+        json.dump(jsonable(v), open(path, 'w'), indent=1)
         tail = ' no-failing-input-found' if v.get('no_input') else ''
         lines.append(f"VIOLATION property={prop} replay={path} obligation={v['obligation']}{tail}")
     total_ob = n_ob
@@ -156,6 +164,7 @@ def finish(prop, tier, seed, results, bounded, findings, wall, write=True):
                         'pruned before counting); B: distinct enumerated cases as counted by each bounded check'),
                   samples=samples or [dict(note='no sample')], exhaustive=False,
                   known_findings_printed=known_printed, faults=fault[:10]))
+    ev = jsonable(ev)
     if write:
         os.makedirs(os.path.join(HERE, 'evidence'), exist_ok=True)
         try:
@@ -164,7 +173,7 @@ def finish(prop, tier, seed, results, bounded, findings, wall, write=True):
         except FileNotFoundError: pass
         except Exception as e:
             fault.append('evidence does not validate: ' + str(e)[:300]); code = code or 3
-        json.dump(ev, open(os.path.join(HERE, 'evidence', prop + '.json'), 'w'), indent=1, default=str)
+        json.dump(ev, open(os.path.join(HERE, 'evidence', prop + '.json'), 'w'), indent=1)
     print(f'[{prop}] tier={tier} P: {n_dis}/{n_ob} discharged over {len(functions)} targets ({solver_s:.1f}s solver); '
           f'concrete {conc_cases}; bounded {b_cases} cases in {len(b_summ)} checks; undecided {len(undecided)}; {wall:.1f}s wall')
     for u in undecided[:15]: print('  undecided:', json.dumps(u, default=str)[:300])
